@@ -30,7 +30,7 @@ func (*c04) NumCases(tier string) int {
 func (*c04) Config(tier string) fw.Config { return fw.Config{CaseTimeout: 90_000_000_000} }
 func (*c04) Rule() string {
 	return "each case = 40 inputs: valid generated programs, structure-aware mutations of them (token insertion/deletion/swap/duplication from the full token alphabet incl. every keyword and builtin name, unbalanced brackets, deep nesting), " +
-		"raw bytes (NUL, BOM, invalid UTF-8, CR/LF mixes, unterminated strings/comments/escapes) and directed probes; each is fed to parser.ParseFile, Compiler.Compile+Bytecode+RemoveDuplicates, Script.Compile (with/without stdlib modules, 0/3/1000 predeclared variables incl. builtin names, file import on/off) and as a module body through AddSourceModule; " +
+		"raw bytes (NUL, BOM, invalid UTF-8, CR/LF mixes, unterminated strings/comments/escapes) and directed probes; each is fed to parser.ParseFile, Compiler.Compile+Bytecode+RemoveDuplicates, Script.Compile (with/without stdlib modules, 0/3/1000 predeclared variables incl. builtin names, file import on/off), as a module body through AddSourceModule, and behind imports of embedder-supplied Importables that return an object of every runtime type / source bytes / an error; " +
 		"every entry point runs under recover (a panic is a violation), a per-case watchdog detects non-termination, and every position in a returned error is checked against an independently computed line table of the offending input. " +
 		"distinct = distinct input bytes; non-trivial = input is rejected with a positioned error or compiles"
 }
@@ -38,7 +38,7 @@ func (*c04) Assumptions() []string {
 	return []string{
 		"inputs are at most 64 KiB",
 		"non-termination is decided by the driver's watchdog (90 s without progress on one case of 40 inputs that normally take milliseconds)",
-		"custom Importables that violate their interface contract (returning neither an Object nor []byte) are outside the claim",
+		"custom Importables that violate their interface contract (returning neither an Object nor []byte nor an error) are outside the claim",
 	}
 }
 
@@ -343,7 +343,71 @@ func (c *c04) tryAll(r *fw.Rec, rng *rand.Rand, src []byte) (viol string, detail
 	if v := note("module body", err); v != "" {
 		return v, detail
 	}
+	// 5. embedder-supplied Importables that hand back a ready-made object of any runtime type (or source bytes, or
+	// an error): the imports are put in front of the input so that they are compiled whatever the input is
+	if rng.Intn(6) == 0 {
+		objs := c04ImportableObjects()
+		mm := tengo.NewModuleMap()
+		pre := ""
+		n := 1 + rng.Intn(5)
+		for i := 0; i < n; i++ {
+			k := rng.Intn(len(objs))
+			name := fmt.Sprintf("obj%d", k)
+			mm.Add(name, c04Importable{objs[k]})
+			switch rng.Intn(3) {
+			case 0:
+				pre += fmt.Sprintf("q%d := import(%q); ", i, name)
+			case 1:
+				pre += fmt.Sprintf("q%d := func() { return import(%q) }(); ", i, name)
+			default:
+				pre += fmt.Sprintf("q%d := [import(%q), import(%q)]; ", i, name, name)
+			}
+			r.Inc("importable-object:" + objs[k].TypeName())
+		}
+		mm.Add("srcbytes", c04Importable{[]byte("export {a: 1}")})
+		mm.Add("failing", c04Importable{fmt.Errorf("importable failed")})
+		if rng.Intn(2) == 0 {
+			pre += "q9 := import(\"srcbytes\"); "
+		}
+		if rng.Intn(8) == 0 {
+			pre += "q8 := import(\"failing\"); "
+		}
+		full := append([]byte(pre+"\n"), src...)
+		files = map[string][]byte{"(main)": full, "srcbytes": []byte("export {a: 1}")}
+		detail["importables_prefix"] = pre
+		is := tengo.NewScript(full)
+		is.SetImports(mm)
+		err = safely(func() error { _, e := is.Compile(); return e })
+		r.Eval()
+		if v := note("custom Importables", err); v != "" {
+			return v, detail
+		}
+	}
 	return "", detail
+}
+
+// c04Importable is an embedder's own Importable: Import returns whatever it was given (an Object, source bytes, or an error).
+type c04Importable struct{ v interface{} }
+
+func (i c04Importable) Import(string) (interface{}, error) {
+	if e, ok := i.v.(error); ok {
+		return nil, e
+	}
+	return i.v, nil
+}
+
+func c04ImportableObjects() []tengo.Object {
+	fn := &tengo.UserFunction{Name: "uf", Value: func(args ...tengo.Object) (tengo.Object, error) { return tengo.UndefinedValue, nil }}
+	return []tengo.Object{
+		&tengo.Map{Value: map[string]tengo.Object{"a": &tengo.Int{Value: 1}}},
+		&tengo.ImmutableMap{Value: map[string]tengo.Object{"a": &tengo.Int{Value: 1}}},
+		&tengo.ImmutableMap{Value: map[string]tengo.Object{"__module_name__": &tengo.String{Value: "named"}, "a": &tengo.Int{Value: 1}}},
+		&tengo.Array{Value: []tengo.Object{&tengo.Int{Value: 1}}},
+		&tengo.ImmutableArray{Value: []tengo.Object{&tengo.Int{Value: 1}}},
+		&tengo.Int{Value: 7}, &tengo.Float{Value: 1.5}, &tengo.String{Value: "s"}, &tengo.Char{Value: 'c'}, &tengo.Bytes{Value: []byte("b")},
+		tengo.TrueValue, tengo.FalseValue, tengo.UndefinedValue, &tengo.Time{}, &tengo.Error{Value: &tengo.String{Value: "e"}},
+		fn, tengo.GetAllBuiltinFunctions()[0],
+	}
 }
 
 func (c *c04) RunCase(r *fw.Rec, cs fw.Case) {
@@ -395,7 +459,8 @@ func (c *c04) RunCase(r *fw.Rec, cs fw.Case) {
 
 func (c *c04) Finish(m *fw.Merged, tier string) {
 	for _, k := range []string{"input:valid", "input:mutated", "input:raw", "input:directed", "accepted:ParseFile", "rejected:ParseFile", "accepted:Script.Compile", "rejected:Script.Compile",
-		"rejected:Compiler.Compile", "accepted:module body", "rejected:module body"} {
+		"rejected:Compiler.Compile", "accepted:module body", "rejected:module body", "accepted:custom Importables", "rejected:custom Importables",
+		"importable-object:map", "importable-object:array", "importable-object:int", "importable-object:undefined", "importable-object:user-function:uf"} {
 		if m.Counters[k] == 0 {
 			m.Fail("never observed: " + k)
 		}
